@@ -15,18 +15,16 @@ def sh(cmd, **kw):
     return subprocess.run(cmd, shell=True, capture_output=True, text=True, **kw)
 
 
-def main():
-    ap = argparse.ArgumentParser()
-    ap.add_argument("--engine", default="verus")
-    ap.add_argument("--only", default="")
-    args = ap.parse_args()
-    only = set(x for x in args.only.split(",") if x)
+def run(engine="verus", only=(), prop=None, quiet=False):
+    only = set(only)
     res = []
     os.makedirs(SCRATCH, exist_ok=True)
     for mu in MUTATIONS:
         if only and mu["id"] not in only:
             continue
-        if args.engine != "all" and mu.get("engine", "verus") != args.engine:
+        if prop and mu["prop"] != prop:
+            continue
+        if engine != "all" and mu.get("engine", "verus") != engine:
             continue
         wd = os.path.join(SCRATCH, mu["id"])
         shutil.rmtree(wd, ignore_errors=True)
@@ -39,27 +37,45 @@ def main():
         src = open(f).read()
         if src.count(mu["old"]) != 1:
             res.append((mu["id"], "SKIP: pattern occurs %d times" % src.count(mu["old"])))
-            print(res[-1]); continue
+            if not quiet:
+                print(res[-1])
+            if mu.get("engine", "verus") == "verus":
+                shutil.rmtree(wd, ignore_errors=True)
+            else:
+                sh("git -C /repo worktree remove --force %s" % wd)
+            continue
         open(f, "w").write(src.replace(mu["old"], mu["new"]))
         env = dict(os.environ, VERIF_REPO=wd, VERIF_OUT=os.path.join(wd, "_out"))
         extra = "--no-kani" if mu.get("engine", "verus") == "verus" else ""
         t0 = time.time()
-        p = subprocess.run("%s/check %s %s" % (ROOT, mu["prop"], extra), shell=True, capture_output=True, text=True, env=env)
+        p = subprocess.run("%s/check %s --tier quick %s" % (ROOT, mu["prop"], extra), shell=True, capture_output=True, text=True, env=env)
         out = p.stdout
         caught = p.returncode == 1 and "VIOLATION property=%s" % mu["prop"] in out
         named = [l for l in out.splitlines() if l.strip().startswith("failed obligation")]
         res.append((mu["id"], "CAUGHT" if caught else "MISSED rc=%d" % p.returncode, named[:3], round(time.time() - t0, 1)))
-        print(res[-1])
-        if not caught:
-            print(out[-1500:])
+        if not quiet:
+            print(res[-1])
+            if not caught:
+                print(out[-1500:])
         if mu.get("engine", "verus") == "verus":
             shutil.rmtree(wd, ignore_errors=True)
         else:
             sh("git -C /repo worktree remove --force %s" % wd)
             sh("rm -rf /scratch/kani-target-*")
+    return res
+
+
+def main():
+    ap = argparse.ArgumentParser()
+    ap.add_argument("--engine", default="verus")
+    ap.add_argument("--only", default="")
+    ap.add_argument("--prop", default=None)
+    args = ap.parse_args()
+    res = run(args.engine, [x for x in args.only.split(",") if x], args.prop)
     n_ok = sum(1 for r in res if r[1] == "CAUGHT")
-    print("mutation self-test: %d/%d caught" % (n_ok, len(res)))
-    return 0 if n_ok == len(res) else 1
+    n_skip = sum(1 for r in res if r[1].startswith("SKIP"))
+    print("mutation self-test: %d/%d caught (%d skipped)" % (n_ok, len(res) - n_skip, n_skip))
+    return 0 if n_ok == len(res) - n_skip else 1
 
 
 if __name__ == "__main__":
